@@ -63,7 +63,23 @@ func setDurationField(field reflect.Value, fieldType reflect.Type, isPtr bool, v
 }
 
 // deserializeParams reads row 0 from a record batch into a Go struct.
-func deserializeParams(batch arrow.RecordBatch, target reflect.Type) (reflect.Value, error) {
+//
+// The batch is decoded from bytes a client supplied, and every caller runs
+// this outside its handler's recover. Arrow's IPC reader checks framing, not
+// buffer contents: a batch with exactly the declared schema can still carry
+// a dictionary index past its dictionary or offsets that run backwards, and
+// reading such a value panics. That must surface as a parameter error, not
+// as a panic that ends the worker (pipe) or aborts the exchange (HTTP).
+func deserializeParams(batch arrow.RecordBatch, target reflect.Type) (result reflect.Value, err error) {
+	defer func() {
+		if rv := recover(); rv != nil {
+			result, err = reflect.Value{}, fmt.Errorf("malformed parameter batch: %v", rv)
+		}
+	}()
+	return deserializeParamsChecked(batch, target)
+}
+
+func deserializeParamsChecked(batch arrow.RecordBatch, target reflect.Type) (reflect.Value, error) {
 	if target.Kind() == reflect.Ptr {
 		target = target.Elem()
 	}
@@ -84,7 +100,7 @@ func deserializeParams(batch arrow.RecordBatch, target reflect.Type) (reflect.Va
 					innerBatch := innerReader.RecordBatch()
 					innerBatch.Retain()
 					defer innerBatch.Release()
-					return deserializeParams(innerBatch, target)
+					return deserializeParamsChecked(innerBatch, target)
 				}
 			}
 		}
